@@ -100,6 +100,18 @@ CLAIMS["C02"] = (
     "future resolved Ok. Byte-for-byte body equality and write-buffer ordering are not decided.",
 )
 
+CLAIMS["C01"] = (
+    "4/C01",
+    "never-reach + guarded-site + assumption-conditioned reachability + byte value-set analysis against an RFC 7230 reference automaton",
+    "Decides on every path: need-more returns of the head, payload and chunk decoders consume nothing (or persist the "
+    "step state first), so a cut of the input resumes identically; each framing-conflict class of the statement has a "
+    "rejecting exit in set_headers / Request::decode and the success return is unreachable under the conflicting "
+    "assumptions; from a decode error the dispatcher cannot reach decode again, sets READ_DISCONNECT and answers 431/400; "
+    "the chunk automaton extracted per state by value-set analysis over all 256 byte values equals the RFC 7230 4.1 "
+    "automaton with recorded leniencies (found and fixed: size line without a digit accepted). Equality of the decoded "
+    "request sequence with the grammar for every byte string (httparse, Uri) is not decided.",
+)
+
 NOT_YET = "check not built yet in this round (planned per DESIGN.md section 4); not claimed until it exists"
 
 NOT_APPLICABLE = {}
